@@ -101,6 +101,12 @@ example :
   intro u; simp only [List.flatten_cons, List.flatten_nil, List.mem_append, List.mem_cons, List.not_mem_nil]
   grind
 
+-- non-vacuity of the permutation / re-delivery forms
+example : ([[(⟨0, ⟨.healthy, 1, 1⟩⟩ : Update)], [⟨0, ⟨.unknown, 1, 1⟩⟩, ⟨1, ⟨.failed, 0, 0⟩⟩]].flatten).Perm
+    ([[(⟨1, ⟨.failed, 0, 0⟩⟩ : Update), ⟨0, ⟨.unknown, 1, 1⟩⟩, ⟨0, ⟨.healthy, 1, 1⟩⟩]].flatten) := by decide
+example : ∀ u ∈ [(⟨0, ⟨.healthy, 1, 1⟩⟩ : Update)],
+    u ∈ [[(⟨0, ⟨.healthy, 1, 1⟩⟩ : Update)], [⟨0, ⟨.unknown, 1, 1⟩⟩]].flatten := by decide
+
 /-! ## 4. nothing moves backwards -/
 
 /-- the Lamport clock never decreases, under every operation -/
